@@ -76,7 +76,7 @@ def kind_of(q):
     return None
 
 
-LTYPE = {'i': 'Int', 'w': 'BitVec 64', 'u': 'BitVec 32'}
+LTYPE = {'i': 'Int', 'w': 'BitVec 64', 'u': 'BitVec 32', 'm2': 'Int → Int → BitVec 64', 'b': 'Bool'}
 WIDTH = {'w': 64, 'u': 32}
 
 
@@ -92,8 +92,8 @@ def V(name):
     return 'v_' + name
 
 
-def clang_ast(tu_dir, cfile, fn):
-    r = subprocess.run(['clang-14', '-std=gnu99', '-DNDEBUG', '-msse2', '-w', '-I' + tu_dir, '-I' + os.path.join(tu_dir, 'm4ri'),
+def clang_ast(tu_dir, cfile, fn, sse=True):
+    r = subprocess.run(['clang-14', '-std=gnu99', '-DNDEBUG', '-msse2' if sse else '-DVT_NOSSE', '-w', '-I' + tu_dir, '-I' + os.path.join(tu_dir, 'm4ri'),
                         '-fsyntax-only', '-Xclang', '-ast-dump=json', '-Xclang', '-ast-dump-filter=' + fn,
                         os.path.join(tu_dir, cfile)], capture_output=True, text=True)
     if r.returncode != 0:
@@ -140,6 +140,13 @@ class Fn:
         self.arrays = {}          # local constant arrays: name -> (kind, [lean literals])
         self.loop_no = 0
         self.fuels = []
+        self.ptrs = {}            # pointer local -> (memory C-ish name, Lean name of its row variable)
+        self.ptr_mem = {}         # pre-pass: pointer local -> memory name
+        self.pending = []         # postfix side effects of the statement being translated
+        self.ret_kind = None
+        self.void_outs = None
+        self.loops = []           # enclosing loops being translated: dict(t=state tuple, inc=[..], brk=flag name or None)
+        self.brk_no = 0
 
     # ------------------------------------------------------------ parameters / free names
     def free(self, lname, kind):
@@ -185,6 +192,12 @@ class Fn:
         """Lean Bool for a C condition"""
         n0 = strip(n)
         k = n0.get('kind')
+        if k == 'BinaryOperator' and n0['opcode'] in ('==', '!=') and \
+           all((kind_of(qt(strip(x))) or '') == 'p:?' and strip(x).get('kind') == 'DeclRefExpr' for x in n0['inner']):
+            # identity of two struct pointers (e.g. `A == B`): a Boolean parameter
+            a, b = [strip(x)['referencedDecl']['name'] for x in n0['inner']]
+            nm = self.free('v_%s__same__%s' % (a, b), 'b')
+            return nm if n0['opcode'] == '==' else '(!%s)' % nm
         if k == 'BinaryOperator' and n0['opcode'] in ('<', '<=', '>', '>=', '==', '!='):
             a, b = n0['inner']
             ka, kb = self.expr_kind(strip_casts_kind(a)), self.expr_kind(strip_casts_kind(b))
@@ -239,6 +252,9 @@ class Fn:
             if nm in self.arrays:
                 ak, vals = self.arrays[nm]
                 return '(CLoop.tab [%s] %s %s)' % (', '.join(vals), self.lit(0, ak), ie)
+            if nm in self.ptrs:
+                mem, row = self.ptrs[nm]
+                return '(%s %s (%s + %s))' % (V(mem), row, V(nm), ie)
             if nm in self.locals:
                 raise CTransError('%s: subscript of local %s' % (self.name, nm))
             self.free(V(nm), 'p:' + ek)
@@ -255,6 +271,22 @@ class Fn:
             if ck == 'FloatingToIntegral':
                 return self.float_to_int(inner)
             raise CTransError('%s: cast kind %s' % (self.name, ck))
+        if k == 'UnaryOperator' and n['opcode'] == '*':
+            mem, row, idx = self.target(n)
+            return '(%s %s %s)' % (V(mem), row, idx)
+        if k == 'UnaryOperator' and n['opcode'] in ('++', '--'):
+            t = strip(n['inner'][0])
+            if t.get('kind') != 'DeclRefExpr' or t['referencedDecl']['name'] not in self.locals or \
+               self.locals[t['referencedDecl']['name']] != 'i':
+                raise CTransError('%s: ++/-- inside an expression on a non-integer' % self.name)
+            nm = t['referencedDecl']['name']
+            d = '+' if n['opcode'] == '++' else '-'
+            if any(x[0] == nm for x in self.pending):
+                raise CTransError('%s: two side effects on %s in one expression' % (self.name, nm))
+            self.pending.append((nm, d))
+            if n.get('isPostfix'):
+                return V(nm)
+            return '(%s %s (1 : Int))' % (V(nm), d)
         if k == 'UnaryOperator':
             op = n['opcode']
             kk = self.expr_kind(n)
@@ -303,6 +335,30 @@ class Fn:
             args = [self.arg(x) for x in n['inner'][1:]]
             return '(%s %s)' % (self.tr.known_fns[fname], ' '.join(args))
         raise CTransError('%s: unsupported expression kind %s' % (self.name, k))
+
+    def target(self, n):
+        """(memory name, Lean row term, Lean index term) of the cell an lvalue `p[i]` / `*p` / `*p++` denotes"""
+        n = strip(n)
+        if n.get('kind') == 'ArraySubscriptExpr':
+            base, idx = n['inner']
+            base = strip(base)
+            if base.get('kind') == 'DeclRefExpr' and base['referencedDecl']['name'] in self.ptrs:
+                nm = base['referencedDecl']['name']
+                mem, row = self.ptrs[nm]
+                return mem, row, '(%s + %s)' % (V(nm), self.as_int(idx))
+        if n.get('kind') == 'UnaryOperator' and n['opcode'] == '*':
+            a = strip(n['inner'][0])
+            if a.get('kind') == 'DeclRefExpr' and a['referencedDecl']['name'] in self.ptrs:
+                nm = a['referencedDecl']['name']
+                mem, row = self.ptrs[nm]
+                return mem, row, V(nm)
+            if a.get('kind') == 'UnaryOperator' and a['opcode'] in ('++', '--'):
+                t = strip(a['inner'][0])
+                if t.get('kind') == 'DeclRefExpr' and t['referencedDecl']['name'] in self.ptrs:
+                    nm = t['referencedDecl']['name']
+                    mem, row = self.ptrs[nm]
+                    return mem, row, self.value(a)
+        raise CTransError('%s: store/load through an unsupported pointer expression' % self.name)
 
     def as_int(self, n):
         """an index / shift count as a Lean Int"""
@@ -361,6 +417,18 @@ class Fn:
                     nm = t['referencedDecl']['name']
                     if nm not in declared and nm not in out:
                         out.append(nm)
+                elif n.get('kind') != 'UnaryOperator':
+                    b = t
+                    if b.get('kind') == 'ArraySubscriptExpr':
+                        b = strip(b['inner'][0])
+                    elif b.get('kind') == 'UnaryOperator' and b.get('opcode') == '*':
+                        b = strip(b['inner'][0])
+                        if b.get('kind') == 'UnaryOperator' and b.get('opcode') in ('++', '--'):
+                            b = strip(b['inner'][0])
+                    if b.get('kind') == 'DeclRefExpr' and b['referencedDecl']['name'] in self.ptr_mem:
+                        mem = self.ptr_mem[b['referencedDecl']['name']]
+                        if mem not in out:
+                            out.append(mem)
             for c in n.get('inner', []):
                 if isinstance(c, dict):
                     walk(c)
@@ -374,6 +442,16 @@ class Fn:
                 return True
             return any(isinstance(c, dict) and walk(c) for c in n.get('inner', []))
         return any(walk(s) for s in stmts)
+
+    def has_own(self, stmts, kind):
+        """does `stmts` contain a statement of `kind` that belongs to this loop (not to a nested loop / switch)?"""
+        def walk(n):
+            if n.get('kind') == kind:
+                return True
+            if n.get('kind') in ('WhileStmt', 'ForStmt', 'DoStmt', 'SwitchStmt'):
+                return False
+            return any(isinstance(c, dict) and walk(c) for c in n.get('inner', []))
+        return any(walk(x) for x in stmts)
 
     def tup(self, names):
         names = [V(x) for x in names]
@@ -394,14 +472,33 @@ class Fn:
         if k == 'BinaryOperator' and n['opcode'] == '=':
             t = strip(n['inner'][0])
             if t.get('kind') != 'DeclRefExpr':
-                raise CTransError('%s: store through a pointer/array is outside the translated subset' % self.name)
+                rhs = self.value(n['inner'][1])
+                mem, row, idx = self.target(t)
+                return mem, '(CLoop.upd2 %s %s %s %s)' % (V(mem), row, idx, rhs)
+            if t['referencedDecl']['name'] in self.ptrs:
+                raise CTransError('%s: re-assignment of pointer %s' % (self.name, t['referencedDecl']['name']))
             return t['referencedDecl']['name'], self.value(n['inner'][1])
         if k == 'CompoundAssignOperator':
             t = strip(n['inner'][0])
             if t.get('kind') != 'DeclRefExpr':
-                raise CTransError('%s: store through a pointer/array is outside the translated subset' % self.name)
+                op = n['opcode'][:-1]
+                rhs = self.value(n['inner'][1])
+                mem, row, idx = self.target(t)
+                old = '(%s %s %s)' % (V(mem), row, idx)
+                if op in ('<<', '>>'):
+                    new = '(%s %s (%s).toNat)' % (old, '<<<' if op == '<<' else '>>>', self.as_int(n['inner'][1]))
+                else:
+                    m = {'+': '(%s + %s)', '-': '(%s - %s)', '&': '(%s &&& %s)', '|': '(%s ||| %s)', '^': '(%s ^^^ %s)'}
+                    if op not in m:
+                        raise CTransError('%s: compound store %s=' % (self.name, op))
+                    new = m[op] % (old, rhs)
+                return mem, '(CLoop.upd2 %s %s %s %s)' % (V(mem), row, idx, new)
             nm = t['referencedDecl']['name']
             op = n['opcode'][:-1]
+            if nm in self.ptrs:
+                if op not in ('+', '-'):
+                    raise CTransError('%s: pointer %s %s=' % (self.name, nm, op))
+                return nm, '(%s %s %s)' % (V(nm), op, self.as_int(n['inner'][1]))
             # the operation is carried out in the computation type, the result converted back to the variable's type
             ck = kind_of(n.get('computeResultType', {}).get('qualType', '') or qt(n)) or self.expr_kind(t)
             tk = self.expr_kind(t)
@@ -423,7 +520,7 @@ class Fn:
         if k == 'UnaryOperator' and n['opcode'] in ('++', '--'):
             t = strip(n['inner'][0])
             nm = t['referencedDecl']['name']
-            tk = self.expr_kind(t)
+            tk = 'i' if nm in self.ptrs else self.expr_kind(t)
             return nm, '(%s %s %s)' % (V(nm), '+' if n['opcode'] == '++' else '-', self.lit(1, tk))
         return None
 
@@ -436,13 +533,13 @@ class Fn:
         while s.get('kind') == 'ParenExpr':
             s = s['inner'][0]
         k = s.get('kind')
-        if k in ('NullStmt',):
-            return self.seq(rest, k_final, ind)
+        if k in ('NullStmt',) or (k == 'CStyleCastExpr' and s.get('castKind') == 'ToVoid'):
+            return self.seq(rest, k_final, ind)       # `;` and `assert(..)` under NDEBUG
         if k == 'CompoundStmt':
             # a nested block: its declarations are local, but our lets are lexically scoped the same way
             inner = list(s.get('inner', []))
             outs = self.assigned(inner)
-            if self.has(inner, ('ReturnStmt',)):
+            if self.has(inner, ('ReturnStmt', 'BreakStmt', 'ContinueStmt')):
                 return self.seq(inner + rest, k_final, ind)
             if not outs:
                 return self.seq(rest, k_final, ind)
@@ -464,6 +561,9 @@ class Fn:
                         vals.append(xv)
                     self.arrays[nm] = (ek, vals)
                     continue
+                if dk == 'p:w' and init:
+                    out += self.decl_pointer(nm, init[0], pad)
+                    continue
                 if dk not in LTYPE:
                     raise CTransError('%s: declaration of %s with unsupported type %r' % (self.name, nm, d['type']['qualType']))
                 self.locals[nm] = dk
@@ -475,18 +575,40 @@ class Fn:
                     e = self.lit(0, dk)      # uninitialised in C; reading it before a write would be undefined
                 out += '%slet %s : %s := %s\n' % (pad, V(nm), LTYPE[dk], e)
             return out + self.seq(rest, k_final, ind)
-        a = self.assign_stmt(s) if k in ('BinaryOperator', 'CompoundAssignOperator', 'UnaryOperator') else None
+        self.pending = []
+        a = self.assign_stmt(s) if k in ('BinaryOperator', 'CompoundAssignOperator', 'UnaryOperator') and s.get('opcode') != ',' else None
         if a:
             nm, e = a
             if nm not in self.locals:
                 raise CTransError('%s: assignment to non-local %s' % (self.name, nm))
-            return '%slet %s : %s := %s\n%s' % (pad, V(nm), LTYPE[self.locals[nm]], e, self.seq(rest, k_final, ind))
+            out = '%slet %s : %s := %s\n' % (pad, V(nm), self.ltype(nm), e)
+            for (pn, d) in self.pending:
+                if pn == nm:
+                    raise CTransError('%s: %s both assigned and incremented in one statement' % (self.name, nm))
+                out += '%slet %s : Int := (%s %s (1 : Int))\n' % (pad, V(pn), V(pn), d)
+            self.pending = []
+            return out + self.seq(rest, k_final, ind)
         if k == 'BinaryOperator' and s['opcode'] == ',':
             return self.seq(list(s['inner']) + rest, k_final, ind)
+        if k == 'ReturnStmt' and self.loops:
+            inner = s.get('inner', [])
+            val = '()' if not inner else self.ret(inner[0])
+            return '%slet v__ret : %s := some (%s)\n%s%s' % (pad, self.ltype('_ret'), val, pad, self.loops[-1]['t'])
+        if k == 'BreakStmt':
+            if not self.loops or not self.loops[-1]['brk']:
+                raise CTransError('%s: break outside a translated loop' % self.name)
+            return '%slet %s : Bool := true\n%s%s' % (pad, V(self.loops[-1]['brk']), pad, self.loops[-1]['t'])
+        if k == 'ContinueStmt':
+            if not self.loops:
+                raise CTransError('%s: continue outside a loop' % self.name)
+            L = self.loops[-1]
+            return self.seq(list(L['inc']), lambda: L['t'], ind)
         if k == 'ReturnStmt':
             inner = s.get('inner', [])
             if not inner:
-                raise CTransError('%s: return without a value' % self.name)
+                if self.void_outs is None:
+                    raise CTransError('%s: return without a value' % self.name)
+                return pad + self.tup(self.void_outs)
             return pad + self.ret(inner[0])
         if k == 'IfStmt':
             parts = [c for c in s['inner']]
@@ -494,7 +616,7 @@ class Fn:
             els = parts[2] if len(parts) > 2 else None
             tl, el = self.body_list(then), self.body_list(els)
             c = self.boolean(cond)
-            if self.has(tl + el, ('ReturnStmt',)):
+            if self.has(tl + el, ('ReturnStmt', 'BreakStmt', 'ContinueStmt')):
                 return '%sif %s then\n%s\n%selse\n%s' % (pad, c, self.seq(tl + rest, k_final, ind + 1), pad,
                                                          self.seq(el + rest, k_final, ind + 1))
             outs = [x for x in self.assigned(tl + el) if x in self.locals]
@@ -514,12 +636,36 @@ class Fn:
                 init = [i0] if i0 else []
                 inc = [inc0] if inc0 else []
             bl = self.body_list(body) + inc
-            if self.has(bl, ('ReturnStmt', 'BreakStmt', 'ContinueStmt', 'GotoStmt')):
-                raise CTransError('%s: loop with return/break/continue' % self.name)
+            c0 = strip(cond) if cond and cond.get('kind') else None
+            if c0 and c0.get('kind') == 'BinaryOperator' and c0['opcode'] in ('<', '<=', '>', '>=', '!='):
+                l0 = strip(c0['inner'][0])
+                if l0.get('kind') == 'UnaryOperator' and l0['opcode'] in ('++', '--') and not l0.get('isPostfix'):
+                    # `while (++i < e) body`  ==  `++i; while (i < e) { body; ++i; }`
+                    plain = dict(c0, inner=[l0['inner'][0], c0['inner'][1]])
+                    return self.seq([l0, dict(kind='WhileStmt', inner=[plain, dict(kind='CompoundStmt', inner=bl + [l0])])] + rest, k_final, ind)
+            if self.has(bl, ('GotoStmt',)):
+                raise CTransError('%s: loop with goto' % self.name)
+            body_stmts = self.body_list(body)
+            has_ret = self.has(bl, ('ReturnStmt',))
+            has_brk = self.has_own(body_stmts, 'BreakStmt')
             # the init statement's declarations are visible in the loop only; we bind them before
             pre = self.seq(init, lambda: '', ind) if init else ''
             pre = pre.rstrip(' ')
             outs = [x for x in self.assigned(bl) if x in self.locals]
+            brk = None
+            if has_ret:
+                if '_ret' not in self.locals:
+                    self.locals['_ret'] = 'ret'
+                if not self.loops:
+                    pre += '%slet v__ret : %s := none\n' % (pad, self.ltype('_ret'))
+                if '_ret' not in outs:
+                    outs.append('_ret')
+            if has_brk:
+                self.brk_no += 1
+                brk = '_brk%d' % self.brk_no
+                self.locals[brk] = 'flag'
+                pre += '%slet %s : Bool := false\n' % (pad, V(brk))
+                outs.append(brk)
             if not outs:
                 raise CTransError('%s: loop without assigned locals' % self.name)
             t = self.tup(outs)
@@ -527,11 +673,25 @@ class Fn:
             fuel = self.tr.fuel(self.name, self.loop_no)
             self.fuels.append(fuel)
             c = self.boolean(cond) if cond and cond.get('kind') else 'true'
-            bodyt = self.seq(bl, lambda: t, ind + 2)
+            if has_brk:
+                c = '((!%s) && %s)' % (V(brk), c)
+            if has_ret:
+                c = '(v__ret.isNone && %s)' % c
+            self.loops.append(dict(t=t, inc=inc, brk=brk))
+            bodyt = self.seq(body_stmts + list(inc), lambda: t, ind + 2)
+            self.loops.pop()
             lam = 'fun %s => ' % t if len(outs) == 1 else 'fun (%s : %s) => match %s with\n%s    | %s => ' % ('st', self.tup_type(outs), 'st', pad, t)
             loop = '%slet %s : %s := CLoop.loop %s\n%s    (%s%s)\n%s    (%s\n%s)\n%s    %s\n' % (
                 pad, t, self.tup_type(outs), fuel, pad, lam, c, pad, lam, bodyt, pad, t)
-            return pre + loop + self.seq(rest, k_final, ind)
+            after = self.seq(rest, k_final, ind + 1 if has_ret else ind)
+            if has_ret:
+                if self.loops:
+                    after = '%sif v__ret.isSome then\n%s  %s\n%selse\n%s' % (pad, pad, self.loops[-1]['t'], pad, after)
+                elif self.void_outs is not None:
+                    after = '%smatch v__ret with\n%s| some _ => %s\n%s| none =>\n%s' % (pad, pad, self.tup(self.void_outs), pad, after)
+                else:
+                    after = '%smatch v__ret with\n%s| some r__ => r__\n%s| none =>\n%s' % (pad, pad, pad, after)
+            return pre + loop + after
         if k == 'SwitchStmt':
             return self.switch(s, rest, k_final, ind)
         if k == 'CallExpr':
@@ -541,8 +701,79 @@ class Fn:
             raise CTransError('%s: call statement outside the translated subset' % self.name)
         raise CTransError('%s: unsupported statement kind %s' % (self.name, k))
 
+    def mzd_row_call(self, n):
+        """(matrix parameter name, row node) if n is `mzd_row(M, r)` / `mzd_row_const(M, r)`"""
+        n = strip(n)
+        if n.get('kind') == 'CallExpr':
+            callee = strip(n['inner'][0])
+            if callee.get('kind') == 'DeclRefExpr' and callee['referencedDecl']['name'] in ('mzd_row', 'mzd_row_const'):
+                m = strip(n['inner'][1])
+                while m.get('kind') in ('CStyleCastExpr', 'ImplicitCastExpr'):
+                    m = strip(m['inner'][0])
+                if m.get('kind') == 'DeclRefExpr':
+                    return m['referencedDecl']['name'], n['inner'][2]
+        return None
+
+    def ptr_source(self, init):
+        """decompose the initialiser of a pointer local: (base node, offset node or None)"""
+        n = strip(init)
+        while n.get('kind') in ('CStyleCastExpr', 'ImplicitCastExpr'):
+            n = strip(n['inner'][0])
+        if n.get('kind') == 'BinaryOperator' and n['opcode'] in ('+', '-'):
+            return strip(n['inner'][0]), (n['opcode'], n['inner'][1])
+        return n, None
+
+    def prepass(self, body):
+        """memory of every pointer local (needed by `assigned` before the declaration is translated)"""
+        def walk(n):
+            if n.get('kind') == 'VarDecl' and kind_of(n['type']['qualType']) == 'p:w':
+                init = [c for c in n.get('inner', []) if isinstance(c, dict) and not c.get('kind', '').endswith('Comment')]
+                if init:
+                    base, _ = self.ptr_source(init[0])
+                    mc = self.mzd_row_call(base)
+                    if mc:
+                        self.ptr_mem[n['name']] = 'mem_' + mc[0]
+                    elif base.get('kind') == 'DeclRefExpr' and base['referencedDecl']['name'] in self.ptr_mem:
+                        self.ptr_mem[n['name']] = self.ptr_mem[base['referencedDecl']['name']]
+            for c in n.get('inner', []):
+                if isinstance(c, dict):
+                    walk(c)
+        walk(body)
+
+    def decl_pointer(self, nm, init, pad):
+        base, off = self.ptr_source(init)
+        mc = self.mzd_row_call(base)
+        if mc:
+            mem = 'mem_' + mc[0]
+            if mem not in self.locals:
+                self.locals[mem] = 'm2'
+                self.free(V(mem), 'm2')
+            rowv = '%s__row' % V(nm)
+            out = '%slet %s : Int := %s\n' % (pad, rowv, self.value(mc[1]))
+            start = '(0 : Int)'
+        elif base.get('kind') == 'DeclRefExpr' and base['referencedDecl']['name'] in self.ptrs:
+            q = base['referencedDecl']['name']
+            mem, rowv = self.ptrs[q]
+            out = ''
+            start = V(q)
+        else:
+            raise CTransError('%s: pointer %s initialised from an unsupported expression' % (self.name, nm))
+        if off:
+            start = '(%s %s %s)' % (start, off[0], self.as_int(off[1]))
+        self.ptrs[nm] = (mem, rowv)
+        self.locals[nm] = 'i'
+        return out + '%slet %s : Int := %s\n' % (pad, V(nm), start)
+
+    def ltype(self, name):
+        k = self.locals[name]
+        if k == 'ret':
+            return 'Option Unit' if self.void_outs is not None else 'Option (%s)' % LTYPE[self.ret_kind]
+        if k == 'flag':
+            return 'Bool'
+        return LTYPE[k]
+
     def tup_type(self, names):
-        ts = [LTYPE[self.locals[x]] for x in names]
+        ts = [self.ltype(x) for x in names]
         return ts[0] if len(ts) == 1 else ' × '.join('(%s)' % t if ' ' in t else t for t in ts)
 
     def switch(self, s, rest, k_final, ind):
@@ -603,7 +834,7 @@ class Fn:
             cond = 'decide (sw_pos ≤ (%d : Int))' % p
             if sf > 0:
                 cond = '(%s && decide ((%d : Int) ≤ sw_pos))' % (cond, sf)
-            out += '%slet %s : %s := if %s then %s else %s\n' % (pad, V(nm), LTYPE[self.locals[nm]], cond, e, V(nm))
+            out += '%slet %s : %s := if %s then %s else %s\n' % (pad, V(nm), self.ltype(nm), cond, e, V(nm))
         return out + self.seq(rest, k_final, ind)
 
     def ret(self, n):
@@ -619,8 +850,9 @@ def strip_casts_kind(n):
 
 
 class Translator:
-    def __init__(self, tu_dir):
+    def __init__(self, tu_dir, tu_dir_nosse=None):
         self.tu_dir = tu_dir
+        self.tu_dir_nosse = tu_dir_nosse
         self.known_fns = {}       # C name -> Lean name
         self.globals_ = {'m4ri_radix': ('i', '64'), 'm4ri_one': ('w', '1'), 'm4ri_ffff': ('w', None)}
         self.fuels = {}
@@ -650,10 +882,10 @@ class Translator:
         if not re.search(r'static\s+word\s+const\s+m4ri_ffff\s*=\s*__M4RI_CONVERT_TO_WORD\(-1\)', misc):
             raise CTransError('misc.h: definition of m4ri_ffff not recognised')
 
-    def function(self, cfile, cname, lname, fuels=(), slice_=None, doc=''):
+    def function(self, cfile, cname, lname, fuels=(), slice_=None, doc='', nosse=False):
         for i, f in enumerate(fuels):
             self.fuels[(cname if not slice_ else lname, i + 1)] = f
-        ast = clang_ast(self.tu_dir, cfile, cname)
+        ast = clang_ast(self.tu_dir if not nosse else self.tu_dir_nosse, cfile, cname, sse=not nosse)
         fn = Fn(self, cname if not slice_ else lname)
         body = [c for c in ast['inner'] if c.get('kind') == 'CompoundStmt'][0]
         if slice_ is None:
@@ -662,20 +894,35 @@ class Translator:
                     pk = kind_of(p['type']['qualType'])
                     if pk is None:
                         raise CTransError('%s: parameter %s of unsupported type %r' % (cname, p.get('name'), p['type']['qualType']))
+                    if pk == 'p:?':
+                        continue                       # a struct pointer (mzd_t *): its fields / rows become parameters on use
                     if pk in LTYPE:
                         fn.locals[p['name']] = pk      # parameters are assignable locals
                     fn.free(V(p['name']), pk)
             rt = ast['type']['qualType'].split('(')[0].strip()
-            fn.ret_kind = kind_of(rt)
-            fn.ret_type = rt
-            if fn.ret_kind not in LTYPE:
-                raise CTransError('%s: return type %r' % (cname, rt))
+            fn.prepass(body)
             stmts = list(body.get('inner', []))
-            term = fn.seq(stmts, lambda: (_ for _ in ()).throw(CTransError('%s: control reaches the end without return' % cname)), 1)
-            rty = LTYPE[fn.ret_kind]
+            if rt == 'void':
+                outs = [x for x in fn.assigned(stmts) if x.startswith('mem_')]
+                if not outs:
+                    raise CTransError('%s: void function that writes no modelled memory' % cname)
+                fn.void_outs = outs
+                for m_ in outs:
+                    fn.locals[m_] = 'm2'
+                    fn.free(V(m_), 'm2')
+                term = fn.seq(stmts, lambda: fn.tup(outs), 1)
+                rty = fn.tup_type(outs)
+            else:
+                fn.ret_kind = kind_of(rt)
+                fn.ret_type = rt
+                if fn.ret_kind not in LTYPE:
+                    raise CTransError('%s: return type %r' % (cname, rt))
+                term = fn.seq(stmts, lambda: (_ for _ in ()).throw(CTransError('%s: control reaches the end without return' % cname)), 1)
+                rty = LTYPE[fn.ret_kind]
         else:
             start, end, outs = slice_['start'], slice_['end'], slice_['outs']
             stmts = find_slice(body, start, end, cname, slice_.get('nth', 0), slice_.get('expect', 1))
+            fn.prepass(body)
             fn.ret_kind = None
             # declarations preceding the slice that the slice assigns (e.g. `rci_t mmm, kkk, nnn;`)
             for nm, ty in slice_.get('predeclared', {}).items():
@@ -753,6 +1000,22 @@ def catalogue(t):
     F('m4ri/misc.c', 'm4ri_lesser_LSB', 'lesserLSB')
     F('m4ri/misc.c', 'm4ri_spread_bits', 'spreadBits')
     F('m4ri/misc.c', 'm4ri_shrink_bits', 'shrinkBits')
+    # --- mzd.h / mzd.c word-level kernels on the memory model (a matrix M is `mem_M : row -> word index -> word`)
+    F('m4ri/mzd.c', 'mzd_read_bit', 'mzdReadBit')
+    F('m4ri/mzd.c', 'mzd_write_bit', 'mzdWriteBit')
+    F('m4ri/mzd.c', 'mzd_read_bits', 'mzdReadBits')
+    F('m4ri/mzd.c', 'mzd_xor_bits', 'mzdXorBits')
+    F('m4ri/mzd.c', 'mzd_and_bits', 'mzdAndBits')
+    F('m4ri/mzd.c', 'mzd_clear_bits', 'mzdClearBits')
+    F('m4ri/mzd.c', '_mzd_row_swap', 'mzdRowSwap', fuels=['(v_M_width).toNat'])
+    F('m4ri/mzd.c', 'mzd_row_clear_offset', 'mzdRowClearOffset', fuels=['(v_M_width).toNat'])
+    F('m4ri/mzd.c', 'mzd_copy_row', 'mzdCopyRow', fuels=['(v_B_width).toNat + (v_A_width).toNat'])
+    F('m4ri/mzd.c', 'mzd_row_add_offset', 'mzdRowAddOffset', fuels=['(v_M_width).toNat'], nosse=True,
+      doc='scalar path (configuration without SSE2)')
+    F('m4ri/mzd.c', 'mzd_is_zero', 'mzdIsZero', fuels=['(v_A_nrows).toNat', '(v_A_width).toNat'])
+    F('m4ri/mzd.c', 'mzd_equal', 'mzdEqual', fuels=['(v_A_nrows).toNat', '(v_A_width).toNat'])
+    F('m4ri/mzd.c', 'mzd_cmp', 'mzdCmp', fuels=['(v_A_nrows).toNat', '(v_A_width).toNat'])
+    F('m4ri/mzd.c', 'mzd_first_zero_row', 'mzdFirstZeroRow', fuels=['(v_A_nrows).toNat', '(v_A_width).toNat'])
     # --- graycode
     F('m4ri/graycode.c', 'm4ri_gray_code', 'grayCode', fuels=['(v_length).toNat + 1'])
     F('m4ri/graycode.c', 'log2_floor', 'log2Floor', fuels=['6'])
@@ -805,6 +1068,9 @@ def ior (a b : Int) : Int := (BitVec.ofInt 64 a ||| BitVec.ofInt 64 b).toInt
 def ixor (a b : Int) : Int := (BitVec.ofInt 64 a ^^^ BitVec.ofInt 64 b).toInt
 /-- `a << n` on a signed integer (no overflow assumed) -/
 def ishl (a : Int) (n : Nat) : Int := a * 2 ^ n
+/-- store into a 2-dimensional word memory (row, word index) -/
+def upd2 (m : Int → Int → BitVec 64) (r i : Int) (v : BitVec 64) : Int → Int → BitVec 64 :=
+  fun r' i' => if r' = r ∧ i' = i then v else m r' i'
 /-- a constant local array -/
 def tab {α : Type} (l : List α) (d : α) (i : Int) : α := if i < 0 then d else l.getD i.toNat d
 end M4ri.Gen.CLoop
@@ -816,15 +1082,16 @@ open M4ri.Gen
 def regenerate():
     d = tempfile.mkdtemp(prefix='m4rict-')
     try:
-        os.makedirs(os.path.join(d, 'm4ri'))
-        srcdir = os.path.join(REPO, 'm4ri')
-        for f in os.listdir(srcdir):
-            if (f.endswith('.c') or f.endswith('.h')) and f not in ('m4ri_config.h', 'config.h'):
-                shutil.copy(os.path.join(srcdir, f), os.path.join(d, 'm4ri', f))
         from . import build as B
-        open(os.path.join(d, 'm4ri', 'm4ri_config.h'), 'w').write(B.config_h(B.DEFAULT_CFG))
-        open(os.path.join(d, 'vt_macros.c'), 'w').write(MACRO_WRAPPERS)
-        t = Translator(d)
+        srcdir = os.path.join(REPO, 'm4ri')
+        for sub, cfg in (('sse', B.DEFAULT_CFG), ('nosse', dict(B.DEFAULT_CFG, sse2=0))):
+            os.makedirs(os.path.join(d, sub, 'm4ri'))
+            for f in os.listdir(srcdir):
+                if (f.endswith('.c') or f.endswith('.h')) and f not in ('m4ri_config.h', 'config.h'):
+                    shutil.copy(os.path.join(srcdir, f), os.path.join(d, sub, 'm4ri', f))
+            open(os.path.join(d, sub, 'm4ri', 'm4ri_config.h'), 'w').write(B.config_h(cfg))
+            open(os.path.join(d, sub, 'vt_macros.c'), 'w').write(MACRO_WRAPPERS)
+        t = Translator(os.path.join(d, 'sse'), os.path.join(d, 'nosse'))
         t.check_globals()
         catalogue(t)
         text = PRELUDE + '\n'.join(t.out) + '\nend M4ri.Gen.C\n'
